@@ -203,7 +203,9 @@ def real_history(case, seed):
     rec.call({'ev': 'GraphCopy', 'm': third, 'src': big}, lambda: c12.store(w, third, nx.Graph.copy(cells[big])))
     rec.call({'ev': 'MakeEdges', 'm': dst}, lambda: cells[dst].make_edges_from_interactions())
     # 8. everything that is left into one system
-    order = rng.sample([1, 2, 3], 3)
+    order = rng.sample([big, dst], 2)
+    if rng.random() < 0.25:                 # the networkx copy has no force field and no nrexcl: the merge is refused there
+        order.append(third)
     rec.call({'ev': 'SetSys', 'm': 0, 'ks': order}, lambda: setattr(system, 'molecules', [cells[i] for i in order]))
     rec.call({'ev': 'MergeAll', 'm': 0}, lambda: MergeAllMolecules().run_system(system))
     block.citations.clear()                # to_molecule hands out the block's own citation set: put it back as it was
@@ -290,7 +292,7 @@ def finish(tier, sums, label, ev, vd):
                           kind='real-history-rejected')
     need = {'Load', 'Merge', 'RemoveNodesFrom', 'Subgraph', 'ToMol', 'Copy', 'RemoveNode', 'GraphCopy', 'MakeEdges', 'SetSys', 'MergeAll',
             'MergeChains', 'MergeChainsAll', 'RemoveInter', 'AddOrReplace'}
-    if need - set(by_event):
+    if need - set(by_event) and not vd.violations:          # (a rejected history ends at the rejected event)
         raise tlc.MachineryError('real histories: no accepted event of kind %s' % sorted(need - set(by_event)))
     ev.extra['shared_objects_observed'] = sharing_table()
 
@@ -312,7 +314,7 @@ def selftest(seed, book):
     events, types, names, ffn = real_history(QUICK_CASES[0], seed + 5)
     hists, expect = [events], [None]
     for kind, what in (('Merge', 'cg'), ('RemoveNodesFrom', 'dangling'), ('Subgraph', 'extra'), ('ToMol', 'key'), ('MergeAll', 'resid')):
-        idx = max(i for i, e in enumerate(events) if e['ev'] == kind and e['err'] == 'none')
+        idx = max(i for i, e in enumerate(events) if e['ev'] == kind and e['err'] == 'none' and (e['ev'] != 'Merge' or e['m'] != 4))
         h = copy.deepcopy(events[:idx + 1])
         e = h[idx]
         tgt = e['m'] or e['sys'][0]
